@@ -103,6 +103,9 @@ def make_pair_freq(p):
         Ma = np.eye(na)
     else:
         raise ValueError(kind)
+    # overall magnitude of the mass (unit systems differ by many orders of magnitude: SI panels with m,n >= 11
+    # have mass-matrix column sums below 1e-12)
+    Ma = Ma * p.get('mass_mag', 1.0)
     # scale so that the lowest circular frequency is p['w_min']
     w2 = eigh(Ka, Ma, eigvals_only=True)
     Ka = Ka * (p['w_min'] ** 2 / w2.min())
